@@ -181,7 +181,46 @@ def run_awkward(case, rec):
     return tuple(obs)
 
 
+def run_mutating(case, rec):
+    """a method that consumes its structured arguments in place (pop / sort / setdefault); the byte-identical request sent again
+    must hand it the caller's arguments again, not what the first call left over"""
+    obs = []
+    for disp in ('sync', 'async'):
+        log = []
+        ns = {'_log': log, '_copy': __import__('copy').deepcopy}
+        exec(('async ' if disp == 'async' else '') + 'def take(items, opts=None):\n    _log.append(_copy((items, opts)))\n    first = items.pop(0) if items else None\n'
+             '    if isinstance(opts, dict):\n        opts.setdefault("seen", True)\n    return first\n', ns)
+        d = pjrpc.server.AsyncDispatcher() if disp == 'async' else pjrpc.server.Dispatcher()
+        d.add(ns['take'], name='take')
+        for params in ([[1, 2, 3]], [[1, 2, 3], {'k': 1}], {'items': [[1], 2], 'opts': {}}):
+            text = json.dumps({'jsonrpc': '2.0', 'id': 7, 'method': 'take', 'params': params})
+            btext = json.dumps([{'jsonrpc': '2.0', 'id': 7, 'method': 'take', 'params': params}, {'jsonrpc': '2.0', 'id': 8, 'method': 'take', 'params': params}])
+            for t in (text, text, btext, text):
+                del log[:]
+                if disp == 'async':
+                    loop = VLoop()
+                    try:
+                        r = loop.run(d.dispatch(t))
+                    finally:
+                        loop.close()
+                else:
+                    r = d.dispatch(t)
+                rec.transitions += 1
+                want_args = (params[0], params[1] if len(params) > 1 else None) if isinstance(params, list) else (params['items'], params['opts'])
+                n = 2 if t is btext else 1
+                if log != [want_args] * n and [list(x) for x in log] != [list(want_args)] * n:
+                    rec.violation('C04:a method did not receive the caller\'s arguments when the same request was sent again:sig-has[]', dict(case, disp=disp, params=params),
+                                  expected=[want_args] * n, observed=list(log))
+                    break
+                obs.append(True)
+    rec.states += 1
+    rec.traces += 1
+    rec.nontrivial_n += 1
+    return tuple(obs)
+
+
 def gen_cases(ctx):
+    yield dict(mutating=True)
     for name in AWKWARD_NAMES:
         yield dict(awkward=True, name=name)
     sigs = signatures(ctx.pick(4, 5))
@@ -238,6 +277,8 @@ def build_params(sig, mode, pos):
 def run_case(case, rec):
     if case.get('awkward'):
         return run_awkward(case, rec)
+    if case.get('mutating'):
+        return run_mutating(case, rec)
     sig = tuple(tuple(x) for x in case['sig'])
     mode, pos = case['mode'], case['pos']
     bp = build_params(sig, mode, pos)
@@ -479,7 +520,9 @@ def replay(doc):
     from mc.core import Recorder, jdump
     rec = Recorder()
     c = doc['case']
-    if c.get('awkward'):
+    if c.get('mutating'):
+        run_case(dict(mutating=True), rec)
+    elif c.get('awkward'):
         run_case(dict(awkward=True, name=c['name']), rec)
     else:
         run_case(dict(sig=c['sig'], mode=c['mode'], pos=c['pos']), rec)
